@@ -213,6 +213,8 @@ func ZZLockWiring() {
 			acquired = append(acquired, e.Idx)
 		}
 	}
+	_, maxHeld, _, _ := lg.ZZSnapshot()
+	rt.Assert("c12-at-most-one-lock-during-a-multi-key-get", maxHeld <= 1)
 	rt.Assert("c03-multi-get-locks-once-per-key", len(acquired) == 3)
 	if len(acquired) == 3 {
 		for j := range ks {
